@@ -2,15 +2,18 @@ package checks
 
 import (
 	"bytes"
+	"context"
 	"errors"
 	"fmt"
 	"io"
+	"io/fs"
 	"math/rand"
 	"os"
 	"path/filepath"
 	"sort"
 	"strings"
 	"sync"
+	"syscall"
 
 	"github.com/wkhere/bcl"
 
@@ -148,6 +151,19 @@ func c11Step(kind int, r *rand.Rand) mon.Step {
 	return mon.Step{N: 0, Err: io.EOF}
 }
 
+// c11TempErr is what a network or pipe reader returns for a condition that may pass.
+type c11TempErr struct{}
+
+func (c11TempErr) Error() string   { return "resource temporarily unavailable (injected)" }
+func (c11TempErr) Temporary() bool { return true }
+func (c11TempErr) Timeout() bool   { return true }
+
+// c11ErrZoo: read errors as real readers return them (the library must treat every one of them as the end of
+// reading: return it, close the input once, stop)
+var c11ErrZoo = []error{syscall.EINTR, syscall.EAGAIN, &fs.PathError{Op: "read", Path: "c11.bcl", Err: os.ErrClosed}, os.ErrClosed, io.ErrUnexpectedEOF,
+	io.ErrClosedPipe, os.ErrDeadlineExceeded, context.Canceled, io.ErrNoProgress, &fs.PathError{Op: "read", Path: "c11.bcl", Err: syscall.EINTR}, c11TempErr{},
+	fmt.Errorf("read c11.bcl: %w", syscall.EAGAIN), syscall.EIO, io.ErrShortBuffer, fmt.Errorf("wrapped: %w", fs.ErrClosed)}
+
 type c11Inner struct{ X int }
 
 // c11Target has struct-typed fields too (a nested block's destination, an embedded struct).
@@ -168,10 +184,15 @@ type c11Embedded struct{ Extra string }
 func c11Run(c *core.Ctx, i int64, in c11Input, kinds []int, r *rand.Rand) {
 	steps := make([]mon.Step, len(kinds))
 	hasErrStep := false
+	var zooErr error
 	for k, kd := range kinds {
 		steps[k] = c11Step(kd, r)
 		if steps[k].Err == mon.ErrInjected && i%4 == 1 {
 			steps[k].Err = mon.ErrWrappedEOF // a read error whose chain contains io.EOF is still a read error
+		}
+		if steps[k].Err == mon.ErrInjected && i%4 >= 2 {
+			zooErr = c11ErrZoo[int(i/4)%len(c11ErrZoo)]
+			steps[k].Err = zooErr
 		}
 		steps[k].Delay = []int{0, 0, 1, 2, 3}[r.Intn(5)]
 		if steps[k].Err == mon.ErrInjected {
@@ -181,6 +202,7 @@ func c11Run(c *core.Ctx, i int64, in c11Input, kinds []int, r *rand.Rand) {
 	_ = hasErrStep
 	sc := mon.NewScript("c11.bcl", in.data, steps)
 	sc.CloseDelay = []int{0, 0, 2, 3}[r.Intn(4)]
+	sc.NonSticky = zooErr != nil && i%8 < 6 // the reader would go on delivering after the error, if asked
 	if i%9 == 4 {
 		sc.CloseErr = mon.ErrClose // Close itself fails: still called once, nothing left behind
 	}
@@ -290,6 +312,14 @@ func c11Run(c *core.Ctx, i int64, in c11Input, kinds []int, r *rand.Rand) {
 		c.Count("runs_with_wrapped_eof_read_error_delivered", 1)
 		if err != mon.ErrWrappedEOF {
 			c.Violation(sig("read-error-lost"), fmt.Sprintf("the reader returned %q but the call returned %v", mon.ErrWrappedEOF, err), det())
+			return
+		}
+	}
+	if zooErr != nil && strings.Contains(rl, zooErr.Error()) {
+		c.Count("runs_with_a_real_world_read_error_delivered", 1)
+		c.SetAdd("read_error_values", fmt.Sprintf("%T:%v", zooErr, zooErr))
+		if !errors.Is(err, zooErr) {
+			c.Violation(sig("read-error-lost"), fmt.Sprintf("the reader returned %q (%T) but the call returned %v", zooErr, zooErr, err), det())
 			return
 		}
 	}
